@@ -395,6 +395,9 @@ func runC05(c *Ctx) {
 	checkErrorShapes(c, "R3")
 	c.floor("R3", 40)
 
+	// ---------- R5 client composites: accumulated results are threaded through loops ----------
+	checkAccumulators(c, "R5")
+
 	// ---------- R4 toLocalPath ----------
 	if tl := p.Func("(*Server).toLocalPath"); tl == nil {
 		c.missing("R4", "(*Server).toLocalPath")
@@ -543,4 +546,144 @@ func extractToPflags(p *Program) (*pflagsTable, string) {
 	}
 	sort.Slice(ks, func(i, j int) bool { return ks[i] < ks[j] })
 	return t, ""
+}
+
+// checkAccumulators (C05.R5): a helper that appends to a slice it is given and returns it (Client.glob) must,
+// when called in a loop, be handed the variable that receives its result; otherwise the results of earlier
+// iterations are lost (Glob over several expanded directories).
+func checkAccumulators(c *Ctx, rule string) {
+	p := c.P
+	n := 0
+	for _, g := range p.LibFuncs() {
+		if g.Parent() != nil || outermost(g).Package() != p.Sftp || !isClientSide(g) {
+			continue
+		}
+		res := g.Signature.Results()
+		if res.Len() == 0 {
+			continue
+		}
+		if _, ok := res.At(0).Type().Underlying().(*types.Slice); !ok {
+			continue
+		}
+		// which slice parameter flows into result 0 on every return
+		accIdx := -1
+		for i, pr := range g.Params {
+			if !types.Identical(pr.Type(), res.At(0).Type()) {
+				continue
+			}
+			flowsAll, nret := true, 0
+			eachInstr(g, func(in ssa.Instruction) {
+				r, ok := in.(*ssa.Return)
+				if !ok || !isReturn(in) {
+					return
+				}
+				nret++
+				if !derivesFromAppendOf(r.Results[0], pr, map[ssa.Value]bool{}, 0) {
+					flowsAll = false
+				}
+			})
+			if flowsAll && nret > 0 {
+				accIdx = i
+			}
+		}
+		if accIdx < 0 {
+			continue
+		}
+		for _, site := range p.callersOfStatic(g) {
+			call, ok := site.(*ssa.Call)
+			if !ok || !inLoop(site) {
+				continue
+			}
+			n++
+			arg := call.Call.Args[accIdx]
+			var res0 ssa.Value
+			for _, r := range *call.Referrers() {
+				if ex, ok := r.(*ssa.Extract); ok && ex.Index == 0 {
+					res0 = ex
+				}
+			}
+			if res.Len() == 1 {
+				res0 = call
+			}
+			threaded := false
+			if res0 != nil {
+				// the argument is a loop variable whose next value is this call's result
+				if phi, ok := arg.(*ssa.Phi); ok {
+					for _, e := range phi.Edges {
+						if flowsTo(res0, e, map[ssa.Value]bool{}, 0) {
+							threaded = true
+						}
+					}
+				}
+				if u, ok := arg.(*ssa.UnOp); ok {
+					if a, ok := u.X.(*ssa.Alloc); ok {
+						for _, st := range storesTo(a.Parent(), a) {
+							if flowsTo(res0, st.Val, map[ssa.Value]bool{}, 0) {
+								threaded = true
+							}
+						}
+					}
+				}
+			}
+			c.check(threaded, rule, "accumulator of "+fnName(g)+" in "+fnName(site.Parent()), p.Pos(site.Pos()),
+				"the slice being accumulated is passed in and receives the result", "a call in a loop to "+fnName(g)+" does not pass the accumulated slice on: the results of earlier iterations are dropped (Glob returns only the matches of the last expanded directory)")
+		}
+	}
+	c.check(n >= 1, rule, "accumulating helpers called in loops", "?", fmt.Sprintf("%d sites", n), "no accumulating helper call found (Client.glob in Client.Glob expected)")
+}
+
+// derivesFromAppendOf: v is param, or append(...(param)...), or a phi/load of those.
+func derivesFromAppendOf(v ssa.Value, pr *ssa.Parameter, seen map[ssa.Value]bool, d int) bool {
+	if v == nil || d > 10 || seen[v] {
+		return d <= 10 && seen[v]
+	}
+	seen[v] = true
+	switch x := v.(type) {
+	case *ssa.Parameter:
+		return x == pr
+	case *ssa.Phi:
+		for _, e := range x.Edges {
+			if !derivesFromAppendOf(e, pr, seen, d+1) {
+				return false
+			}
+		}
+		return true
+	case *ssa.Call:
+		if builtinName(&x.Call) == "append" {
+			return derivesFromAppendOf(x.Call.Args[0], pr, seen, d+1)
+		}
+	case *ssa.UnOp:
+		if a, ok := x.X.(*ssa.Alloc); ok {
+			sts := reachingStores(x, a)
+			if len(sts) == 0 {
+				return false
+			}
+			for _, st := range sts {
+				if !derivesFromAppendOf(st.Val, pr, seen, d+1) {
+					return false
+				}
+			}
+			return true
+		}
+	}
+	return false
+}
+
+// flowsTo: does value src reach dst through phis?
+func flowsTo(src, dst ssa.Value, seen map[ssa.Value]bool, d int) bool {
+	if dst == src {
+		return true
+	}
+	if d > 6 || seen[dst] {
+		return false
+	}
+	seen[dst] = true
+	if phi, ok := dst.(*ssa.Phi); ok {
+		for _, e := range phi.Edges {
+			if flowsTo(src, e, seen, d+1) {
+				return true
+			}
+		}
+	}
+	return false
 }
